@@ -351,17 +351,18 @@ func (ssc *StatefulSetController) adoptOrphanRevisions(set *apps.StatefulSet) er
 	if err != nil {
 		return err
 	}
-	hasOrphans := false
+	// only orphans are label-synced and adopted; a revision that already has an
+	// owner cannot be adopted and must not make the adoption of the others fail
+	orphans := make([]*kubeapps.ControllerRevision, 0, len(revisions))
 	for i := range revisions {
 		if metav1.GetControllerOf(revisions[i]) == nil {
-			hasOrphans = true
-			break
+			orphans = append(orphans, revisions[i])
 		}
 	}
-	if hasOrphans {
-		for i := range revisions {
-			if shouldSyncLabels(revisions[i]) {
-				revisions[i], err = syncLabels(ssc.kubeClient, set, revisions[i])
+	if len(orphans) > 0 {
+		for i := range orphans {
+			if shouldSyncLabels(orphans[i]) {
+				orphans[i], err = syncLabels(ssc.kubeClient, set, orphans[i])
 				if err != nil {
 					return err
 				}
@@ -374,7 +375,7 @@ func (ssc *StatefulSetController) adoptOrphanRevisions(set *apps.StatefulSet) er
 		if fresh.UID != set.UID {
 			return fmt.Errorf("original StatefulSet %v/%v is gone: got uid %v, wanted %v", set.Namespace, set.Name, fresh.UID, set.UID)
 		}
-		return ssc.control.AdoptOrphanRevisions(set, revisions)
+		return ssc.control.AdoptOrphanRevisions(set, orphans)
 	}
 	return nil
 }
